@@ -191,7 +191,7 @@ def handle (op : String) (args : List String) : Option String :=
     withArgs (do let A ← pCRS; let M ← pCRS; pure (A, M)) args fun (A, M) =>
       if square A && square M && M.nrows == A.nrows then
         joinSp [showBool (samePatternb A M), showBool (leastSquaresRowsb A M),
-                showBool (leastSquaresRowsTolb (Rat.divInt 1 (2 ^ 24 : Nat)) A M)]
+                showBool (leastSquaresRowsTolb (Rat.divInt 1 (2 ^ 16 : Nat)) A M)]
       else badInput
   | _ => none
 
